@@ -1,10 +1,10 @@
 #!/bin/sh
 # run every claimed check (quick by default) on the current /repo tree; one line per check
-cd /verif
+cd "$(dirname "$0")/.."
 TIER=${1:-quick}
 git -C /repo diff --quiet || echo "NOTE: /repo has uncommitted changes"
 for P in $(python3 -c "import json; print(' '.join(c['property_id'] for c in json.load(open('MANIFEST.json'))['checks']))"); do
-  S=$(date +%s); ./check $P --tier $TIER > /tmp/runall.$P.log 2>&1; E=$?; T=$(( $(date +%s) - S ))
-  echo "$P exit=$E ${T}s $(grep -E "^$P \[" /tmp/runall.$P.log | cut -c1-200)"
-  grep -E "^(VIOLATION|HARNESS-ERROR|SELFTEST.*MISSED)" /tmp/runall.$P.log | cut -c1-300 | head -5
+  S=$(date +%s); ./check $P --tier $TIER > /tmp/runall.$TIER.$P.log 2>&1; E=$?; T=$(( $(date +%s) - S ))
+  echo "$P exit=$E ${T}s $(grep -E "^$P \[" /tmp/runall.$TIER.$P.log | cut -c1-200)"
+  grep -E "^(VIOLATION|HARNESS-ERROR|SELFTEST.*MISSED)" /tmp/runall.$TIER.$P.log | cut -c1-300 | head -5
 done
